@@ -42,7 +42,7 @@ func newSingleFoodReporter returns (r)
 func (*singleFoodReporter).Process returns (err)
   props C17 C08
   requires @args r != nil && ln != nil && r.output != nil
-  modifies ghost(bufSticky, sinkFailed, sinkPend, prLen, prSink, prArg, prArgs)
+  modifies ghost(bufSticky, sinkFailed, sinkPend, prLen, prSink, prArg, prArgs, prFmt)
   ensures @sink [C17] BufStep(r.output)
   loop 1 { invariant @sink r == old(r) && ln == old(ln) && r.output == old(r.output) && BufStep(r.output) }
 
@@ -66,14 +66,14 @@ func newSingleReporter returns (r)
 func (*singleReporter).Process returns (err)
   props C17 C08 C07 C12
   requires @args r != nil && ln != nil && r.output != nil && DBIs(r.db)
-  modifies ghost(accKey, accP, accN, accH, bufSticky, sinkFailed, sinkPend, prLen, prSink, prArg, prArgs)
+  modifies ghost(accKey, accP, accN, accH, bufSticky, sinkFailed, sinkPend, prLen, prSink, prArg, prArgs, prFmt)
   let E0 := elems(ln.Elements)
   let N0 := len(ln.Elements)
   let S := r.config.SingleElement
   let B := prLen
   ensures @sink [C17] BufStep(r.output) && err == nil
   ensures @no-row [C07 C12] !EHas(E0, N0, S) ==> prLen == B
-  ensures @row [C07 C12] EHas(E0, N0, S) ==> prLen == B + 1 && PrintedStr(B, 0, FormatTime(ln.Time, r.config.DateFormat)) && PrintedStr(B, 1, S) && PrintedF(B, 2, EPos(E0, N0, S)) && PrintedF(B, 3, -1.0 * ENeg(E0, N0, S)) && PrintedF(B, 4, EPos(E0, N0, S) + ENeg(E0, N0, S))
+  ensures @row [C07 C12] EHas(E0, N0, S) ==> prLen == B + 1 && prFmt[B] == (if r.config.CSV then "%s;\"%s\";%0.2f;%0.2f;%0.2f\n" else "%s %20s %10.2f %10.2f =%10.2f\n") && PrintedStr(B, 0, FormatTime(ln.Time, r.config.DateFormat)) && PrintedStr(B, 1, S) && PrintedF(B, 2, EPos(E0, N0, S)) && PrintedF(B, 3, -1.0 * ENeg(E0, N0, S)) && PrintedF(B, 4, EPos(E0, N0, S) + ENeg(E0, N0, S))
   loop 1 {
     pre { unfold EPos(E0, 0, S); unfold ENeg(E0, 0, S); unfold EHas(E0, 0, S) }
     invariant @acc r == old(r) && ln == old(ln) && WfAcc(acc) && AccView(acc) && fresh(acc) && singleElement == S && (forall x string :: {x in accH[acc]} x in accH[acc] ==> x == singleElement) && (forall k string :: {acc[k]} k in acc ==> arr(acc[k]) >= old(alloc()))
@@ -132,7 +132,7 @@ func (*elementByFoodReporter).printSingleElementByFoodRow
 func (*elementByFoodReporter).Flush returns (err)
   props C17 C08 C05
   requires @args EbfInv(r)
-  modifies ghost(bufSticky, sinkFailed, sinkPend, prLen, prSink, prArg, prArgs)
+  modifies ghost(bufSticky, sinkFailed, sinkPend, prLen, prSink, prArg, prArgs, prFmt)
   ensures @sink [C17] BufStep(r.output)
   ensures @reports-loss [C17] (err != nil) == bufSticky[r.output] && (err == nil ==> sinkPend[bufSink[r.output]] == 0)
   loop 1 {
@@ -155,7 +155,7 @@ func (*elementByFoodReporter).Flush returns (err)
   }
   // each row shows the food's positive plus negative amount of the element, and the food's name (C07)
   ghost before call 1 printSingleElementByFoodRow { assert @row-args [C07] #arg1 == name && #arg2 == arr[1] && #arg3 == arr[0] }
-  ghost after call 1 printSingleElementByFoodRow { assert @row [C07] PrintedF(prLen - 1, 0, arr[1] + arr[0]) && PrintedStr(prLen - 1, 1, name) }
+  ghost after call 1 printSingleElementByFoodRow { assert @row [C07] PrintedF(prLen - 1, 0, arr[1] + arr[0]) && PrintedStr(prLen - 1, 1, name) && prFmt[prLen - 1] == "%10.2f\t%s\n" }
 
 // the old hand-written register (--use-old-reg-reporter): every line goes through r.output
 func newRegReporter returns (r)
@@ -181,7 +181,7 @@ func (*regReporter).Process returns (err)
   props C17 C08 C02 C07 C15
   requires @args r != nil && ln != nil && r.output != nil && DBIs(r.db)
   calluse Sort#1 strings
-  modifies ghost(accKey, accP, accN, accH, bufSticky, sinkFailed, sinkPend, prLen, prSink, prArg, prArgs, regTB)
+  modifies ghost(accKey, accP, accN, accH, bufSticky, sinkFailed, sinkPend, prLen, prSink, prArg, prArgs, prFmt, regTB)
   let E0 := elems(ln.Elements)
   let N0 := len(ln.Elements)
   let B := prLen
@@ -300,7 +300,7 @@ func Register returns (err)
   requires @streams logStream != nil && dbStream != nil
   requires @sink rc.ReporterConfig.Output != nil && !typeis(rc.ReporterConfig.Output, "*bufio.Writer") && !typeis(rc.ReporterConfig.Output, "*encoding/csv.Writer") && TreeInv()
   modifies *
-  modifies ghost(cbLen, cbErr, cbNode, cbStop, cbRet, cbLineNo, cbLine, cbHeader, cbElems, cbNElems, scRd, scPos, privLo, evOf, accKey, accP, accN, accH, bufSink, bufSticky, sinkFailed, sinkPend, prLen, prSink, prArg, prArgs, csvLen, csvW, csvN, csvRow, tnodes, tdepth, tmax, tmapOf, jlen, tvLen, tv, tseg, tvSet, adLen, adName, adVal, adSep, adRoot, procLen, procTime, procSrc)
+  modifies ghost(cbLen, cbErr, cbNode, cbStop, cbRet, cbLineNo, cbLine, cbHeader, cbElems, cbNElems, scRd, scPos, privLo, evOf, accKey, accP, accN, accH, bufSink, bufSticky, sinkFailed, sinkPend, prLen, prSink, prArg, prArgs, prFmt, csvLen, csvW, csvN, csvRow, tnodes, tdepth, tmax, tmapOf, jlen, tvLen, tv, tseg, tvSet, adLen, adName, adVal, adSep, adRoot, procLen, procTime, procSrc)
   let out := payload(rc.ReporterConfig.Output)
   let lrd := payload(logStream)
   let drd := payload(dbStream)
@@ -318,18 +318,18 @@ func Register returns (err)
 // ---------------------------------------------------------------------------------------------
 type register.registerCmd(logStream, dbStream, rc) returns (err)
   modifies *
-  modifies ghost(cbLen, cbErr, cbNode, cbStop, cbRet, cbLineNo, cbLine, cbHeader, cbElems, cbNElems, scRd, scPos, privLo, evOf, accKey, accP, accN, accH, bufSink, bufSticky, sinkFailed, sinkPend, prLen, prSink, prArg, prArgs, csvLen, csvW, csvN, csvRow, tnodes, tdepth, tmax, tmapOf, jlen, tvLen, tv, tseg, tvSet, adLen, adName, adVal, adSep, adRoot, procLen, procTime, procSrc, lastOpen, cfgRd)
+  modifies ghost(cbLen, cbErr, cbNode, cbStop, cbRet, cbLineNo, cbLine, cbHeader, cbElems, cbNElems, scRd, scPos, privLo, evOf, accKey, accP, accN, accH, bufSink, bufSticky, sinkFailed, sinkPend, prLen, prSink, prArg, prArgs, prFmt, csvLen, csvW, csvN, csvRow, tnodes, tdepth, tmax, tmapOf, jlen, tvLen, tv, tseg, tvSet, adLen, adName, adVal, adSep, adRoot, procLen, procTime, procSrc, lastOpen, cfgRd)
 
 type register.withFileReaders(fileNames, cb) returns (err)
   modifies *
-  modifies ghost(cbLen, cbErr, cbNode, cbStop, cbRet, cbLineNo, cbLine, cbHeader, cbElems, cbNElems, scRd, scPos, privLo, evOf, accKey, accP, accN, accH, bufSink, bufSticky, sinkFailed, sinkPend, prLen, prSink, prArg, prArgs, csvLen, csvW, csvN, csvRow, tnodes, tdepth, tmax, tmapOf, jlen, tvLen, tv, tseg, tvSet, adLen, adName, adVal, adSep, adRoot, procLen, procTime, procSrc, lastOpen, cfgRd)
+  modifies ghost(cbLen, cbErr, cbNode, cbStop, cbRet, cbLineNo, cbLine, cbHeader, cbElems, cbNElems, scRd, scPos, privLo, evOf, accKey, accP, accN, accH, bufSink, bufSticky, sinkFailed, sinkPend, prLen, prSink, prArg, prArgs, prFmt, csvLen, csvW, csvN, csvRow, tnodes, tdepth, tmax, tmapOf, jlen, tvLen, tv, tseg, tvSet, adLen, adName, adVal, adSep, adRoot, procLen, procTime, procSrc, lastOpen, cfgRd)
 
 func NewRegisterCommand$1$1$1 returns (err)
   props C16 C06 C15 C11 C08
   requires @streams len(streams) == 2 && o != nil && register != nil
   dyncall 1 register.registerCmd
   modifies *
-  modifies ghost(cbLen, cbErr, cbNode, cbStop, cbRet, cbLineNo, cbLine, cbHeader, cbElems, cbNElems, scRd, scPos, privLo, evOf, accKey, accP, accN, accH, bufSink, bufSticky, sinkFailed, sinkPend, prLen, prSink, prArg, prArgs, csvLen, csvW, csvN, csvRow, tnodes, tdepth, tmax, tmapOf, jlen, tvLen, tv, tseg, tvSet, adLen, adName, adVal, adSep, adRoot, procLen, procTime, procSrc, lastOpen, cfgRd)
+  modifies ghost(cbLen, cbErr, cbNode, cbStop, cbRet, cbLineNo, cbLine, cbHeader, cbElems, cbNElems, scRd, scPos, privLo, evOf, accKey, accP, accN, accH, bufSink, bufSticky, sinkFailed, sinkPend, prLen, prSink, prArg, prArgs, prFmt, csvLen, csvW, csvN, csvRow, tnodes, tdepth, tmax, tmapOf, jlen, tvLen, tv, tseg, tvSet, adLen, adName, adVal, adSep, adRoot, procLen, procTime, procSrc, lastOpen, cfgRd)
   // the command is actually run (exactly this call) and its error is what the closure returns
   ghost after dyncall 1 { let cmdErr := #ret }
   ensures @runs-the-command [C17 C16] err == cmdErr
@@ -343,7 +343,7 @@ func NewRegisterCommand$1$1 returns (err)
   requires @loaded o != nil && cu.WithFileReaders != nil
   dyncall 1 register.withFileReaders
   modifies *
-  modifies ghost(cbLen, cbErr, cbNode, cbStop, cbRet, cbLineNo, cbLine, cbHeader, cbElems, cbNElems, scRd, scPos, privLo, evOf, accKey, accP, accN, accH, bufSink, bufSticky, sinkFailed, sinkPend, prLen, prSink, prArg, prArgs, csvLen, csvW, csvN, csvRow, tnodes, tdepth, tmax, tmapOf, jlen, tvLen, tv, tseg, tvSet, adLen, adName, adVal, adSep, adRoot, procLen, procTime, procSrc, lastOpen, cfgRd)
+  modifies ghost(cbLen, cbErr, cbNode, cbStop, cbRet, cbLineNo, cbLine, cbHeader, cbElems, cbNElems, scRd, scPos, privLo, evOf, accKey, accP, accN, accH, bufSink, bufSticky, sinkFailed, sinkPend, prLen, prSink, prArg, prArgs, prFmt, csvLen, csvW, csvN, csvRow, tnodes, tdepth, tmax, tmapOf, jlen, tvLen, tv, tseg, tvSet, adLen, adName, adVal, adSep, adRoot, procLen, procTime, procSrc, lastOpen, cfgRd)
   // the command is actually run (exactly this call) and its error is what the closure returns
   ghost after dyncall 1 { let cmdErr := #ret }
   ensures @runs-the-command [C17 C16] err == cmdErr
